@@ -204,8 +204,8 @@ func (s *Schema) fields(fs []*idl.Field, kind string) []*FieldT {
 		if kind == "union" {
 			ft.Req = idl.ReqOptional
 		}
-		if kind == "args" {
-			ft.Req = idl.ReqDefault
+		if kind == "args" && ft.Req == idl.ReqOptional {
+			ft.Req = idl.ReqDefault // "optional keyword is ignored in argument lists"; `required` is kept
 		}
 		out = append(out, ft)
 	}
